@@ -33,6 +33,13 @@ class Inconclusive(BaseException):
     """solver unknown, bound exhausted, unsupported construct"""
 
 
+def _where():
+    """innermost stack frames outside sx (for diagnostics of unsupported symbolic uses)"""
+    import traceback
+    fr = [f for f in traceback.extract_stack() if "/sx/" not in f.filename][-3:]
+    return " < ".join("%s:%d:%s" % (os.path.basename(f.filename), f.lineno, f.name) for f in reversed(fr))
+
+
 def width_for(lo, hi):
     n = max(lo.bit_length() if lo >= 0 else (-lo - 1).bit_length(),
             hi.bit_length() if hi >= 0 else (-hi - 1).bit_length())
@@ -371,7 +378,7 @@ class Engine:
                 return val
         if cut_label:
             self.cut(cut_label)
-        raise Inconclusive("more than %d feasible values while concretising %r" % (limit, sint))
+        raise Inconclusive("more than %d feasible values while concretising %r at %s" % (limit, sint, _where()))
 
     # ---- exploration
     def explore(self, fn):
